@@ -32,19 +32,27 @@ class Many:
 class Cache:
     """scripted cache with the Client signatures; records every call"""
 
-    def __init__(self, idx, hit):
+    def __init__(self, idx, hit, falsy=0):
         self.idx = idx
         self.hit = hit
+        self.falsy = falsy      # 0: truthy value; 1: b""; 2: 0  (falsy values are still hits for single-key reads)
         self.calls = []
+
+    def val(self):
+        if self.falsy == 1:
+            return b""
+        if self.falsy == 2:
+            return 0
+        return ("value", self.idx)
 
     # reads
     def get(self, key, default=None):
         self.calls.append(("get", key))
-        return ("value", self.idx) if self.hit else default
+        return self.val() if self.hit else default
 
     def gets(self, key, default=None, cas_default=None):
         self.calls.append(("gets", key))
-        return (("value", self.idx), ("cas", self.idx)) if self.hit else (default, cas_default)
+        return (self.val(), ("cas", self.idx)) if self.hit else (default, cas_default)
 
     def get_many(self, keys):
         self.calls.append(("get_many", keys))
@@ -89,15 +97,17 @@ class Cache:
         self.calls.append(("flush_all", delay, noreply))
 
 
-def h_read(op: int, hits: int, key: bytes) -> int:
+def h_read(op: int, hits: int, key: bytes, falsy: int) -> int:
     """
     pre: 0 <= op <= 3
     pre: 0 <= hits < 2 ** NC
     pre: len(key) <= 2
+    pre: 0 <= falsy <= 2
     post: _ != 0
     """
     name = READS[concretize(op, 0, 3)]
-    caches = [Cache(i, bit(hits, i)) for i in range(NC)]
+    falsy = concretize(falsy, 0, 2)
+    caches = [Cache(i, bit(hits, i), falsy) for i in range(NC)]
     fc = FallbackClient(caches)
     arg = key if name in ("get", "gets") else [key]
     try:
@@ -125,9 +135,9 @@ def h_read(op: int, hits: int, key: bytes) -> int:
             return ok("miss")
         return viol(name, "with no hit returned", got)
     if name == "get":
-        want_val = ("value", first)
+        want_val = caches[first].val()
     elif name == "gets":
-        want_val = (("value", first), ("cas", first))
+        want_val = (caches[first].val(), ("cas", first))
     else:
         if not isinstance(got, Many):
             return viol(name, "did not return the first non-empty answer:", got)
@@ -135,7 +145,7 @@ def h_read(op: int, hits: int, key: bytes) -> int:
         if got.items_[0][1] != inner:
             return viol(name, "returned the answer of another cache:", got.items_)
         return ok("hit-many")
-    if got != want_val:
+    if got != want_val or type(got) is not type(want_val):
         return viol(name, "hits", [c.hit for c in caches], "returned", got, "expected the first hit", want_val)
     return ok("hit")
 
@@ -195,7 +205,7 @@ def shards(tier):
 
 BOUNDS = {
     "quick": "1..4 caches (shards) x every hit/miss assignment (symbolic mask) x every read operation (symbolic) with a "
-             "symbolic key <= 2 bytes; every mutating operation (symbolic) with symbolic key/value (<= 2 bytes), expire, "
+             "symbolic key <= 2 bytes and hit values that are truthy, b'' or 0; every mutating operation (symbolic) with symbolic key/value (<= 2 bytes), expire, "
              "noreply, delta, cas id (unbounded symbolic ints)",
     "thorough": "same as quick (the space is exhausted in the quick tier)",
 }
